@@ -195,7 +195,8 @@ struct NodeIds {
                 v.push_back(a); id[a] = { d, (int)v.size() - 1 };
             }
         }
-        for (XalanNode* c = n->getFirstChild(); c; c = c->getNextSibling()) walk(c, d, v);
+        for (XalanNode* c = n->getFirstChild(); c; c = c->getNextSibling())
+            if (c->getNodeType() != XalanNode::DOCUMENT_TYPE_NODE) walk(c, d, v);      // a Xerces tree keeps the document type as a child; the data model has no such node
     }
     XalanNode* node(int d, int i) const { return nodes.at(d - 1).at(i); }
     // "[d,i]"; namespace-declaration attributes (Xalan's namespace nodes) are "[d,-owner]"
